@@ -281,9 +281,13 @@ func genConc(r *sim.Rng, c *sim.Case, keys []string) {
 	nk := 2 + r.Intn(3)
 	keys = keys[:nk]
 	nt := 2 + r.Intn(3)
+	extra := 0
+	if c.Prop != "" && r.Chance(1, 5) {
+		extra = 4 // longer programs now and then (histories stay short enough for porcupine)
+	}
 	for t := 0; t < nt; t++ {
 		task := sim.Task{Name: fmt.Sprintf("t%d", t)}
-		n := 3 + r.Intn(4)
+		n := 3 + r.Intn(4) + r.Intn(extra+1)
 		for i := 0; i < n; i++ {
 			k := keys[r.Intn(len(keys))]
 			switch r.Intn(10) {
